@@ -455,7 +455,13 @@ def render_image(ctx, blobs, asides, fl, check_twin=True, res=None, stream=None)
             outp = blobs.out()
             outs.append(outp)
             reqs.append(D.render_args(blobs, a, outp))
-        drv(reqs)
+        answers = drv(reqs)
+        if res is not None:
+            res.count("asides_rendered_by_lean", len(answers))
+            res.count("asides_satisfying_wfDescB", sum(1 for x in answers if x == "ok wf"))
+        if any(x != "ok wf" for x in answers):
+            # the generator left the domain of C07.independent_writer_is_read_exactly: a defect of the generator, not of the tool
+            raise AssertionError("gen_aside produced a description that Spec.Dos.wfDescB rejects: " + repr(answers))
         for k, outp in enumerate(outs):
             if open(outp, "rb").read() != b"".join(sides[k]):
                 if res is not None:
